@@ -46,6 +46,26 @@ def ks_distance(sample, cdf):
     return float(max(hi.max(), lo.max()))
 
 
+def ks_distance_fp(sample, cdf, magnitude=0.0, ulps=8):
+    """KS distance at floating-point resolution: the fitted CDF may be evaluated a few ulps to the
+    right (for the upper comparison) or left (for the lower one) of each sample point.  A law that is
+    a step within a few ulps (scipy MLE diverging to scale 1e-29) is then judged like the point mass
+    it is, and nothing else changes (the shift is 8 ulps of max(|x|, magnitude))."""
+    x = np.sort(np.asarray(sample, dtype=float))
+    n = len(x)
+    step = ulps * np.spacing(np.maximum(np.abs(x), magnitude)) + 1e-300
+    vals, first = np.unique(x, return_index=True)
+    counts = np.diff(np.append(first, n))
+    Fn_right = (first + counts) / n
+    Fn_left = first / n
+    st = step[first]
+    F_hi = np.asarray(cdf(vals + st), dtype=float)
+    F_lo = np.asarray(cdf(vals - st), dtype=float)
+    up = Fn_right - F_hi          # empirical above the (right-shifted) model CDF
+    down = F_lo - Fn_left         # (left-shifted) model CDF above the empirical
+    return float(max(up.max(), down.max(), 0.0))
+
+
 def ks_distance_ties(sample, cdf):
     """KS distance that is valid when the sample has ties / the CDF has jumps: compares the
     empirical CDF and F at the distinct sample values, from the right only and from the left."""
